@@ -156,3 +156,28 @@ def mk_over3(props, n=3, nested=False):
 def over_params(n):
     return ([I("k%d" % i, 0, 1) for i in range(2 * n)] + [I("ov%d" % i) for i in range(n)]
             + [I("p0"), I("p1"), I("ho", 0, 1), I("v"), I("failer", 0, n)])
+
+
+def mk_shared(props):
+    """A shared in-flight task with its own override, awaited by two tasks under different overrides; an
+    unshared reader next to it must see its own awaiter's override (reads inside the shared task are made
+    only inside its own override, where they are unambiguous)."""
+    from harness.prog import SHARED
+
+    def f(order, rorder, ks0, ks1, kr, ka, ovs, ova, ovb, p0, p1, ho, v):
+        S = TaskD("S", WITH(("sv", 0, ovs), WITH(("attr", ovs + 1),
+                  SEQ(READ(0), Y(0, ITEM(conc(ks0, 2), v)), READ(0), READ("attr"), Y(0, ITEM(conc(ks1, 2), v + 1)), READ(0)))))
+        R = TaskD("R", SEQ(READ(0), READ("attr"), Y(0, ITEM(conc(kr, 2), v + 5)), READ(0), READ("attr")))
+        T0 = TaskD("T0", WITH(("sv", 0, ova), WITH(("attr", ova + 1),
+                   SEQ(Y(0, ITEM(conc(ka, 2), v + 7)) if conc(ka, 3) < 2 else SEQ(), Y(0, SHARED("s", S)), READ(0), READ("attr")))))
+        pair = [SHARED("s", S), TASK(R)] if conc(rorder, 2) == 0 else [TASK(R), SHARED("s", S)]
+        T1 = TaskD("T1", WITH(("sv", 0, ovb), WITH(("attr", ovb + 1), SEQ(Y(2, *pair), READ(0), READ("attr")))))
+        kids = [TASK(T0), TASK(T1)] if conc(order, 2) == 0 else [TASK(T1), TASK(T0)]
+        td = TaskD("root", SEQ(READ(0), Y(4, *kids), READ(0), READ("attr")))
+        return check_program(td, props, nkinds=2, prio=[p0, p1], hash_order=conc(ho, 2), sv_init=(v + 1000, 0),
+                             sig=("shared", conc(order, 2), conc(rorder, 2), conc(ks0, 2), conc(ks1, 2), conc(kr, 2), conc(ka, 3)))
+    return f
+
+
+SHARED_PARAMS = [I("order", 0, 1), I("rorder", 0, 1), I("ks0", 0, 1), I("ks1", 0, 1), I("kr", 0, 1), I("ka", 0, 2),
+                 I("ovs"), I("ova"), I("ovb"), I("p0"), I("p1"), I("ho", 0, 1), I("v")]
